@@ -742,8 +742,21 @@ func traceOracle(evs []event, frames []frameRec, ops []*apiOp) (string, string) 
 				b = closeRet
 			}
 			last := iv.a
+			nth := 0
 			for _, f := range frames {
 				if f.kind == 'F' && int(f.dst[5]) == m && f.at >= iv.a && f.at <= b {
+					// the loop announces at once when it starts, then on every tick of its 6 s ticker: the first
+					// forged frame follows StartHunt within the slack, the k-th later one comes no later than
+					// k cycles + slack after StartHunt (a ticker does not drift) – only one loop attacks the MAC here
+					if len(list) == 1 && starts == 1 {
+						if nth == 0 && f.at-iv.a > slack {
+							return fmt.Sprintf("first forged frame to hunted mac %d came %v after StartHunt (the loop announces at once)", m, f.at-iv.a), ""
+						}
+						if f.at-iv.a > time.Duration(nth)*cycle+slack {
+							return fmt.Sprintf("forged frame %d to hunted mac %d came %v after StartHunt: later than %d cycles of 6 s + slack", nth+1, m, f.at-iv.a, nth), ""
+						}
+					}
+					nth++
 					if f.at-last > cycle+slack {
 						return fmt.Sprintf("no forged frame to hunted mac %d for %v (cycle is 6 s)", m, f.at-last), ""
 					}
@@ -755,6 +768,9 @@ func traceOracle(evs []event, frames []frameRec, ops []*apiOp) (string, string) 
 			}
 			if b-last > cycle+slack {
 				return fmt.Sprintf("no forged frame to hunted mac %d for %v (cycle is 6 s)", m, b-last), ""
+			}
+			if len(list) == 1 && starts == 1 && nth == 0 && b-iv.a > slack {
+				return fmt.Sprintf("no forged frame to hunted mac %d within %v of StartHunt (the loop announces at once)", m, slack), ""
 			}
 		}
 	}
@@ -1076,6 +1092,8 @@ func Gen(c *core.Ctx) {
 		"s0:0,w300,x0", "s0:0,s0:0,s0:1,w6300,x0", "s0:0,s1:0,w300,x0,w300", "s0:0,s1:1,q0:1,q1:0,q2:1,x1,q1:1",
 		"s0:x,q0:1,b0:d:l,b1:d:o,b2:a:l,b0:-:l", "s0:0,w200,c", "s0:0,w6300,w3000,x0", "s0:0,x0,w50,s0:0,w6300,x0",
 		"s0:0,s1:1,s2:2,w500,x1,o1,o2,w6300,c",
+		// two full cycles while hunted: the k-th forged frame is due k cycles after StartHunt
+		"s0:0,w6300,w6300,x0",
 		// requests relayed by a bridge: hunted Ethernet source / non-hunted ARP sender and the reverse
 		"s0:0,w100,q1:1:0,q0:1:1,q1:0:0,q0:0:1,w200", "s0:0,s1:1,w200,q2:1:1,q1:1:2,q0:1:0,q2:1:2",
 		// StopHunt with another address than StartHunt used; with the address of another hunted MAC; shared IPv4
